@@ -129,10 +129,16 @@ def do_run(names, tier='quick', all_checks=False, runs=None, only=None):
                                    env=env, timeout=3600)
                 cl = [ln.strip() for ln in p.stdout.splitlines()
                       if 'clause:' in ln]
+                import re
+                m = re.search(r'(\d+) violating runs \((\d+) known classes, '
+                              r'(\d+) new\)', p.stdout)
+                nviol = int(m.group(1)) if m else None
                 results['%s/%s' % (pr, tier)] = {
-                    'exit': p.returncode, 'clauses': cl[:3]}
+                    'exit': p.returncode, 'clauses': cl[:3],
+                    'violating_runs': nviol}
                 print(name, pr, tier, 'DETECTED' if p.returncode == 1 else
-                      'exit=%d' % p.returncode, cl[:1])
+                      'exit=%d' % p.returncode, cl[:1],
+                      'violating_runs=%s' % nviol)
         finally:
             cleanup(tmp)
         json.dump(meta, open(mpath, 'w'), indent=1)
